@@ -142,6 +142,17 @@ CHECKS = {
         note="Collinear neighbour pairs are not generated; direction not asserted for centres bonded to CoordinationCenter atoms (ignored by the placement code on purpose); hints <= free valence.",
         technique="property-based testing with a class-directed constructive generator and an independent valence calculation",
     ),
+    "C17": dict(
+        category="fault_enumeration",
+        text="Binding: ALL sequences of <=3/<=4 job accesses over three driver instances x {single, vectorised job} x {used at once, handle kept and used later} for a harness "
+             "DriverBase subclass and for XTBDriver; the prepared JobInput must carry that driver's executable / nprocs / environment. Execution: generated JobInputs (1-4 sh commands, "
+             "first failing command at every position, text / binary files incl. CR LF and NUL bytes, env override vs inherited, every return-file plan) run by run_local() in a forked "
+             "child and by the real _molli_run; oracle from marker files written by the commands themselves: order and stop-at-first-failure, private directory under scratch with exactly "
+             "the input files byte for byte, environment, captured stdout/stderr, returned files, input hash, exit status iff, no scratch residue.",
+        design_ref="DESIGN.md section 5, C17",
+        note="External programs are /bin/sh scripts; zero-command jobs and duplicate command names are outside the claim.",
+        technique="exhaustive enumeration of access orders + fault-position enumeration over generated job specifications with an external-marker oracle",
+    ),
     "C02": dict(
         category="exploration",
         text="Bounded-exhaustive (all op sequences up to length 4/5 over a 14-letter alphabet on two raw UKVFile handles) plus random "
